@@ -22,6 +22,7 @@ import (
 	"strings"
 	"sync"
 	"syscall"
+	"time"
 
 	_ "github.com/octohelm/gengo/devpkg/deepcopygen"
 	_ "github.com/octohelm/gengo/devpkg/defaultergen"
@@ -731,6 +732,12 @@ type Spec struct {
 	RealFirst bool `json:"real_first,omitempty"`
 	// AfterLoad: file operations (paths relative to Dir) applied AFTER NewContext returned and BEFORE Execute starts
 	AfterLoad []FileOp `json:"after_load,omitempty"`
+	// Again: after Execute returned, apply these file operations and call Execute a SECOND time on the same Executor
+	Again *Again `json:"execute_again,omitempty"`
+}
+
+type Again struct {
+	Before []FileOp `json:"before,omitempty"`
 }
 
 // FileOp writes (or removes) one file.
@@ -746,6 +753,9 @@ type Outcome struct {
 	Panic   string  `json:"panic,omitempty"`
 	Log     []Event `json:"log"`
 	Stdout  string  `json:"stdout,omitempty"`
+	// second Execute on the same Executor (Spec.Again): index of its first log event, its error
+	SecondFrom int    `json:"second_from,omitempty"`
+	Err2       string `json:"err2,omitempty"`
 }
 
 func (o Outcome) OK() bool { return o.LoadErr == "" && o.Err == "" && o.Panic == "" }
@@ -766,6 +776,19 @@ var execMu sync.Mutex
 // Exec runs the pipeline in this process (chdir into the module; gengo's
 // stdout chatter is captured).
 func Exec(spec Spec) (out Outcome) {
+	for attempt := 0; ; attempt++ {
+		out = execOnce(spec)
+		// the Go build cache was trimmed or moved away under the `go list` that packages.Load runs (another process
+		// purging it): an accident of the environment, not an answer of the library - load again
+		if attempt < 3 && strings.Contains(out.LoadErr, "from cache") && strings.Contains(out.LoadErr, "cache entry not found") {
+			time.Sleep(time.Second)
+			continue
+		}
+		return out
+	}
+}
+
+func execOnce(spec Spec) (out Outcome) {
 	execMu.Lock()
 	defer execMu.Unlock()
 
@@ -848,22 +871,35 @@ func Exec(spec Spec) (out Outcome) {
 			finished = true
 			return
 		}
-		for _, op := range spec.AfterLoad {
-			f := filepath.Join(spec.Dir, op.Path)
-			if op.Remove {
-				os.Remove(f)
-			} else {
-				os.MkdirAll(filepath.Dir(f), 0o755)
-				os.WriteFile(f, []byte(op.Content), 0o644)
-			}
-		}
+		applyOps(spec.Dir, spec.AfterLoad)
 		if err := ex.Execute(context.Background(), gens...); err != nil {
 			out.Err = err.Error()
+		}
+		if spec.Again != nil && out.Err == "" {
+			applyOps(spec.Dir, spec.Again.Before)
+			mu.Lock()
+			out.SecondFrom = len(log)
+			mu.Unlock()
+			if err := ex.Execute(context.Background(), gens...); err != nil {
+				out.Err2 = err.Error()
+			}
 		}
 		finished = true
 	}()
 	<-done
 	return
+}
+
+func applyOps(dir string, ops []FileOp) {
+	for _, op := range ops {
+		f := filepath.Join(dir, op.Path)
+		if op.Remove {
+			os.Remove(f)
+		} else {
+			os.MkdirAll(filepath.Dir(f), 0o755)
+			os.WriteFile(f, []byte(op.Content), 0o644)
+		}
+	}
 }
 
 // ExecJSON is the body of the child worker: spec on stdin, outcome on stdout.
